@@ -1,5 +1,6 @@
 import KernDriver.Tokens
 import KernDriver.Abstract
+import KernModel.Spec.Tracker
 namespace KD.DocOps
 open Lean KM KD KD.TokOps
 
@@ -111,6 +112,13 @@ def handle (op : String) (j : Json) : Except String Json := do
         ("pairs", Json.arr (pairs.map (fun (a, b) => Json.arr #[Json.num (JsonNumber.fromNat a), Json.num (JsonNumber.fromNat b)])).toArray),
         ("starts", jnats d.starts),
         ("export", jexcept jstr (Export.exportString d Export.defaultOpts))])])
+  | "doc.track" =>
+    -- the independent spine-path tracker (C02's specification) on the rows of a text
+    let text ← getStr j "text"
+    let rows := readRows text
+    let t := KM.Spec.Track.run rows
+    pure (Json.mkObj [("wf", Json.bool (KM.Spec.Track.wf rows)),
+      ("skel", Json.arr (t.skel.map (fun st => Json.arr (st.map (fun s => Json.arr #[jocoord s.1, jocoord s.2])).toArray)).toArray)])
   | "doc.rows" =>
     let text ← getStr j "text"
     pure (Json.arr ((readRows text).map (fun r => Json.arr (r.map jstr).toArray)).toArray)
